@@ -413,6 +413,94 @@ class C12(RenderProp):
         return isinstance(case["x"], (dict, list)) and not case.get("_declined")
 
 
+class C11(RenderProp):
+    id = "C11"
+    n_quick = 3000
+    n_thorough = 45000
+    required_theorems = ["C11_member_present", "C11_member_of_nil", "C11_member_of_undefined", "C11_index_out_of_range", "C11_missing_key", "C11_absent_prints_nothing"]
+    rule = ("random Go data trees (dynamically shaped struct types via reflect.StructOf, a compiled struct type with methods / unexported field / acronym fields, "
+            "string-keyed maps, typed maps and slices, pointers incl. nil, interfaces incl. nil, strings, int/int64/uint8/float64/bool; depth <= 3 quick / 5 thorough) x random "
+            "paths (lower-camel fields, .key and ['key'], [index], niladic methods), one third deliberately stepping off the data (missing field/key, out-of-range index, nil "
+            "pointer, unexported field). Oracle: an independent reflection walk in the harness; absent => nothing printed and no error. Non-trivial: path length >= 2; distinct by case.")
+
+    def compare(self, case, impl, model, spec):
+        corr, _, detail = RenderProp.compare(self, case, impl, model, None)
+        prop = None
+        if isinstance(impl, dict) and "go" in impl:
+            g = impl["go"]
+            i = out_of(impl)
+            if g.get("leaf"):
+                prop = i == ("ok", "[" + html_escape5(g["text"]) + "]")
+            elif not g.get("found") or not g.get("container"):
+                prop = i == ("ok", "[]")      # absent (or nil): prints nothing, raises nothing
+            else:
+                prop = i[0] == "ok"           # a container: only "no error" is specified; how it prints is not modelled
+                corr = True
+                case["_declined"] = True
+            if not prop:
+                detail += " | Go reaches %r" % (g,)
+        return corr, prop, detail
+
+    def nontrivial(self, case, impl):
+        return case.get("plen", 0) >= 2 and not case.get("_declined")
+
+
+class C07(Prop):
+    id = "C07"
+    n_quick = 600
+    n_thorough = 8000
+    procs_quick = 4
+    procs_thorough = 16
+    required_theorems = ["C07_sortKeys_perm", "C07_mapKeys_perm", "C07_explicit_order"]
+    rule = ("documents of the C02 / C03 / C05 (spread attributes) / C20 generators plus templates that push to, assign into, sort, splice and pop everything reachable "
+            "from the data: each rendered 3x on one engine, on a second engine, and in 4 (quick) / 16 (thorough) fresh processes; render histories (3-10 renders over 2-4 "
+            "templates on one engine) compared with standalone renders; the caller's data deep-compared before/after. Non-trivial: every case; distinct by case.")
+    assumptions = ["data keys are distinct after first-letter case folding; pre-converted pugjs.Object values inside caller data are out of scope"]
+
+    def run_cases(self, cases, tier):
+        nproc = self.procs_thorough if tier == "thorough" else self.procs_quick
+        runs = [core.run_impl(cases) for _ in range(nproc)]   # every call is a fresh process (new hash-map seeds)
+        pure = [c for c in cases if c["kind"] == "pure"]
+        model = core.run_model(pure)
+        results, hist, seen, samples = [], {}, set(), []
+        for c in cases:
+            ims = [r.get(c["id"]) for r in runs]
+            im = ims[0]
+            same = all(json.dumps(x, sort_keys=True) == json.dumps(im, sort_keys=True) for x in ims)
+            detail = ""
+            prop = same
+            corr = True
+            mo = None
+            if not same:
+                detail = "different answers in different processes: %s" % [json.dumps(x)[:160] for x in ims[:3]]
+            if c["kind"] == "pure" and isinstance(im, dict):
+                mo = model.get(c["id"], (None, None))[0]
+                i, m = out_of(im), out_of(mo)
+                if m[0] not in ("model-domain", "no-model"):
+                    corr = (i == m) if (i[0] == "ok" or m[0] == "ok") else i[0] == m[0]
+                    if not corr:
+                        detail += " model=%r impl=%r" % (m, i)
+                if im.get("class") == "ok":
+                    ok = im.get("repeat_equal") and im.get("engine2_equal") and im.get("data_unchanged")
+                    if not ok:
+                        prop = False
+                        detail += " repeat_equal=%s engine2_equal=%s data_unchanged=%s" % (im.get("repeat_equal"), im.get("engine2_equal"), im.get("data_unchanged"))
+            elif c["kind"] == "history" and isinstance(im, dict) and im.get("class") == "ok":
+                if im.get("outs") != im.get("alone"):
+                    prop = False
+                    detail += " history output differs from the standalone render"
+            results.append({"case": c, "impl": im, "model": mo, "spec": None, "corr_ok": corr, "prop_ok": prop, "detail": detail or "ok"})
+            b = c.get("bucket", c["kind"])
+            hist[b] = hist.get(b, 0) + 1
+            d = core.digest({k: v for k, v in c.items() if k not in ("id", "_known")})
+            if d not in seen:
+                seen.add(d)
+                if len(samples) < 2:
+                    samples.append({"case": {k: v for k, v in c.items() if not k.startswith("_")}, "impl": im})
+        hist["processes"] = nproc
+        return {"results": results, "histogram": hist, "distinct_nontrivial": len(seen), "samples": samples}
+
+
 WS = " \t\r\n"
 
 
@@ -471,4 +559,4 @@ class C13(Prop):
         return "%s/%s" % (case.get("from"), out_of((impl or {}).get("prod"))[0])
 
 
-PROPS = {p.id: p for p in [C01(), C02(), C04(), C05(), C06(), C13(), C17(), C12(), C18(), C20()]}
+PROPS = {p.id: p for p in [C01(), C02(), C04(), C05(), C06(), C07(), C11(), C12(), C13(), C17(), C18(), C20()]}
